@@ -88,7 +88,11 @@ func VerifHarness_C01_EvaluateDegenerateInputs() {
 		tree = &expr.ArithmeticExpression{Left: vx, Right: &expr.LiteralExpression{Literal: system.Integer(1)}, Op: expr.EvaluateAdd}
 	}
 	e := &Expression{expression: tree, path: "degenerate"}
-	res, err := e.Evaluate(input, evalopts.EnvVariable("x", x))
+	options := []EvaluateOption{evalopts.EnvVariable("x", x)}
+	if verifrt.NondetBool("nilOption") {
+		options = append(options, nil) // a nil option is an error, not a panic
+	}
+	res, err := e.Evaluate(input, options...)
 	verifrt.Assert(err != nil || res != nil || len(res) == 0, "a-collection-or-an-error")
 	for _, it := range res {
 		verifrt.Assert(it != nil, "no-nil-item-in-a-result")
